@@ -502,6 +502,33 @@ func init() {
 			"f.removeContentTypesPart(ContentTypeSlicerCache") && slicerOrder
 		slicerOrder = inOrder("deleteWorkbookSlicerCache", "ext.Content = strings.ReplaceAll(ext.Content, entry, \"\")") && slicerOrder
 		fmt.Fprintf(w, "def deleteSlicerOrder : Bool := %v\n", slicerOrder)
+		// DeleteComment / DeleteFormControl: only a shape of the VML part (and comment entries) goes;
+		// no part, relationship, Override or legacyDrawing reference is removed
+		vmlKeeps := true
+		for fn, pats := range map[string][]string{
+			"DeleteComment":     {"return f.deleteFormControl(sheetRelationshipsDrawingVML, cell, true)"},
+			"DeleteFormControl": {"return f.deleteFormControl(sheetRelationshipsDrawingVML, cell, false)"},
+			"deleteFormControl": {"vml.Shape = append(vml.Shape[:i], vml.Shape[i+1:]...)", "f.VMLDrawing[drawingVML] = vml"},
+		} {
+			fd := funcDecl("File", fn)
+			if fd == nil {
+				fail("func (*File) %s", fn)
+				vmlKeeps = false
+				continue
+			}
+			body := src(fd.Body)
+			for _, p := range pats {
+				if !strings.Contains(body, p) {
+					fail("%s: skeleton `%s`", fn, p)
+				}
+			}
+			for _, p := range []string{"Pkg.Delete", "deleteSheetRelationships", "removeContentTypesPart", "LegacyDrawing = nil", "deleteWorkbookRels"} {
+				if strings.Contains(body, p) {
+					vmlKeeps = false
+				}
+			}
+		}
+		fmt.Fprintf(w, "def deleteVmlKeepsParts : Bool := %v\n", vmlKeeps)
 		// the cell setters and the calculation chain
 		sstFactsLate := func(fn string, pats ...string) {
 			fd := funcDecl("File", fn)
